@@ -42,11 +42,12 @@ class StubProgram:
     """Stand-in for the compiled BoundProgram of one part: evaluates the part's
     own output expressions with RefEval."""
 
-    def __init__(self, rank, part, partition, monitor):
+    def __init__(self, rank, part, partition, monitor, real=None):
         self.rank = rank
         self.part = part
         self.partition = partition
         self.monitor = monitor
+        self.real = real      # the real BoundProgram of this part (shadow run)
 
     def __call__(self, queue, allocator=None, **kwargs):
         part = self.part
@@ -69,6 +70,21 @@ class StubProgram:
         for name in sorted(part.output_names):
             res[name] = np.array(ev(self.partition.name_to_output[name]),
                                  copy=True)
+        if self.real is not None:
+            # shadow: the REAL generated kernel of this part, compiled with gcc
+            # through loopy's C target, must agree with the stub.  Evidence
+            # only -- a disagreement is code generation's business (C01), so it
+            # is counted, never reported as a violation of C08.
+            from . import realexec
+            sh = mon["shadow"]
+            try:
+                got = realexec.run_bound_program(self.real, kwargs)
+            except Exception as e:  # noqa: BLE001
+                sh[f"could_not_run:{type(e).__name__}"] += 1
+            else:
+                ok = all(n in got and got[n].shape == res[n].shape
+                         and np.array_equal(got[n], res[n]) for n in res)
+                sh["agree" if ok else "DISAGREE"] += 1
         return None, res
 
 
@@ -76,7 +92,8 @@ def _exc_class(e) -> str:
     return type(e).__name__
 
 
-def run_case(recipe, cfg, chooser, *, real_codegen=False, iterations=1,
+def run_case(recipe, cfg, chooser, *, real_codegen=False, shadow_exec=False,
+             iterations=1,
              stop_after="execute", faults=(), transport_fault=None,
              max_steps=100000, cross_check=False, keep_partitions=True):
     """Run the real pipeline for *recipe* under the simulator.  Returns a dict:
@@ -90,7 +107,9 @@ def run_case(recipe, cfg, chooser, *, real_codegen=False, iterations=1,
             c = recipe["comms"][f["comm"]]
             nv = npvals[c["src_val"]]
             inputs[c["dst"]][f"dropped{f['comm']}"] = np.zeros(nv.shape, nv.dtype)
-    monitor = {"violations": [], "part_execs": [], "codegen_own_failures": 0}
+    import collections
+    monitor = {"violations": [], "part_execs": [], "codegen_own_failures": 0,
+               "shadow": collections.Counter()}
     record: list = [dict() for _ in range(n)]
 
     def rank_fn(r):
@@ -110,6 +129,7 @@ def run_case(recipe, cfg, chooser, *, real_codegen=False, iterations=1,
             rec["stage"] = "numbered"
             if stop_after == "tags":
                 return rec
+            real = None
             if real_codegen:
                 from pytato.distributed.execute import generate_code_for_partition
                 try:
@@ -154,7 +174,9 @@ def run_case(recipe, cfg, chooser, *, real_codegen=False, iterations=1,
                                               f"{sorted(p.output_names)} inputs "
                                               f"{sorted(p.all_input_names())}"})
                 rec["real_codegen"] = True
-            prgs = {pid: StubProgram(r, p, npart, monitor)
+            prgs = {pid: StubProgram(
+                        r, p, npart, monitor,
+                        real=(real.get(pid) if shadow_exec and real else None))
                     for pid, p in npart.parts.items()}
             rec["outs"] = []
             for _it in range(iterations):
